@@ -618,6 +618,11 @@ impl NetcodeServer {
                                 assert(s0.pending_clients@.contains_key(addr));
                                 assert(s0.pending_clients@[addr].client_id == client_id);
                             }
+//@before /let packet = Packet::ConnectionDenied;/ last
+                            proof {
+                                assert(challenge_authentic(token_data, token_sequence, s0.challenge_key, challenge_token.client_id, challenge_token.user_data));
+                                assert(issued_challenge(s0.challenge_key, s0.pending_clients@[addr].client_id, challenge_token.user_data));
+                            }
 //@cut /match self\.clients\.iter\(\)\.position\(\|c\| c\.is_none\(\)\) \{/ .. /match self\.clients\.iter\(\)\.position\(\|c\| c\.is_none\(\)\) \{/ => match first_free_slot_unverified(&self.clients) {
 //@endfn
 }
